@@ -49,7 +49,7 @@ structure SVariant where
   linesPadUnstyled : Bool := true
   /-- `Panel` renders its title with `console.render(title_text)` — no options, i.e. at `console.width`
   (panel.py:147) — instead of at the width it aligned the title to.  `false` = the proposed repair
-  (`console.options.update(width=max(1, width - 4))`). -/
+  (`console.options.update(width=width - 4)`; `Console.render` yields nothing below 1). -/
   titleAtConsoleWidth : Bool := true
   /-- `Rule` without a title builds its `Text` with the default `end` (rule.py:62), ignoring `self.end`.
   `false` = the proposed repair. -/
@@ -106,6 +106,7 @@ def simpleTitle (cw : Char → Nat) (v : Variant) (title : List Char) (a : Align
   | some t => some
     { cells := cellLen cw t,
       render := fun st n ch rw =>
+        if rw < 1 then some [] else    -- `Console.render`: nothing is rendered in no space
         match textConsoleSimple (σ := σ) cw v (textAlign cw t a n ch) [] rw with
         | none => none
         | some ts => some (ts.map (fun g => { g with style := some st })) }
@@ -141,7 +142,7 @@ def panelConsoleS (cw : Char → Nat) (A : SOps σ) (env : Env) (sv : SVariant) 
         match title with
         | none => some [segS (some bs) (boxTop box (width - 2))]
         | some t =>
-          let rw : Int := if sv.titleAtConsoleWidth then (env.consoleWidth : Int) else max 1 (width - 4)
+          let rw : Int := if sv.titleAtConsoleWidth then (env.consoleWidth : Int) else width - 4
           match t.render bs (width - 4) box.top rw with
           | none => none
           | some ts => some ([segS (some bs) [box.topLeft, box.top]] ++ ts ++ [segS (some bs) [box.top, box.topRight]])
